@@ -466,6 +466,16 @@ def c_getitem_norestore(repo):
     return {'utils': src(t)}
 
 
+@control(['C20'], 'query-leaves-state', ['R20.g'], 'let Buffer.hasNext record a flag that __next__ consults')
+def c_query_state(repo):
+    t = parse(repo, 'utils')
+    fn = _buffer_method(t, 'hasNext')
+    fn.body.insert(len(fn.body) - 1, ast.parse('self._asked = True').body[0])
+    nx = _buffer_method(t, '__next__')
+    nx.body.insert(0, ast.parse('if getattr(self, "_x", 0):\n    self._asked = self._asked').body[0])
+    return {'utils': src(t)}
+
+
 @control(['C20'], 'backward-no-underflow-check', ['R20.b'], 'delete the underflow assertion of Buffer.backward')
 def c_backward_noassert(repo):
     t = parse(repo, 'utils')
